@@ -98,8 +98,15 @@ class SimEnv:
         h = hashlib.blake2b(b"%d:%d" % (self.seed, self._uuid_counter), digest_size=16).digest()
         return _uuid.UUID(bytes=h, version=4)
 
+    _frozen = 0
+
     def __enter__(self):
         gc.collect()
+        if SimEnv._frozen < 2:
+            # everything imported so far (incl. lazily during the first run) is permanent:
+            # keeps later collections cheap
+            gc.freeze()
+            SimEnv._frozen += 1
         gc.disable()
         install(self.loop)
         random.seed(self.seed)
